@@ -232,7 +232,7 @@ def layout_variants(cases, fams, seps):
 
 
 def run_prog_property(prop, fams, tier, seed, rule, assumptions, select=None, extra_cov=None, verdict_fams=(),
-                      expand=None, trace_fams=()):
+                      expand=None, trace_fams=(), post=None):
     """The common shape of a check whose cases are `prog` behaviours of one or more families.
     verdict_fams: families in which a wrong verdict contradicts `prop` itself (default: C01)."""
     out = Outcome(prop, tier, seed, "model_checking")
@@ -293,6 +293,9 @@ def run_prog_property(prop, fams, tier, seed, rule, assumptions, select=None, ex
         out.coverage["models"] = out.coverage["models"] + ["TraceScopes"]
     if extra_cov:
         out.coverage.update(extra_cov)
+    if post:
+        # a second phase of the same check (other case kinds); may report violations and add coverage entries
+        post(out, tier, seed)
     out.assumptions = assumptions
     return out.finish()
 
